@@ -108,7 +108,7 @@ class CodecTarget(Target):
 
     def __init__(self, id, cls, *, view=None, transient=None, read_skips_tag=True, field_types=None, nested_readers=(), extra_overrides=None,
                  read_args=None, requires=None, note="", deterministic=False, field_invs=None, writer="write", reader="read", timeout=600,
-                 construct=False, after_construct=None, init_types=None, write_args=None):
+                 construct=False, after_construct=None, init_types=None, write_args=None, ordered_dicts=None):
         self.cls = cls
         self.view = view or {}
         self.transient = transient or {}
@@ -122,6 +122,7 @@ class CodecTarget(Target):
         self.after_construct = after_construct
         self.init_types = init_types or {}
         self.write_args = write_args  # fn(I, env) -> extra positional arguments of the writer
+        self.ordered_dicts = ordered_dicts or {}  # field -> why the insertion order of that dict is observable
         ov = prim_overrides()
         ov.update(extra_overrides or {})
         super().__init__(id, f"{cls.__module__}:{cls.__qualname__}.{writer}", self.setup_rt, ensures=[("dummy", lambda I, env, r: None)], raises=(),
@@ -286,9 +287,21 @@ class CodecTarget(Target):
         buf = env["buf"]
         toks = list(buf.tokens)
         where = f"{cls.__name__}.write -> {cls.__name__}.read"
+        # order of dict-valued fields whose insertion order is observable
+        for kind, what in I.codec.order_events:
+            if kind != "sorted-keys":
+                continue
+            self_obj = env.get("self")
+            names = [f for f, v in getattr(self_obj, "fields", {}).items() if v is what or (isinstance(v, ZVal) and isinstance(what, ZVal) and v.cell is what.cell)]
+            for f in names:
+                if f in self.ordered_dicts:
+                    ctx.oblige(f"codec/dict-order-preserved/{f}", z3.BoolVal(False), kind="codec",
+                               where=f"{cls.__name__}.write emits the entries of `{f}` in sorted key order, {cls.__name__}.read rebuilds the dict in that order: {self.ordered_dicts[f]}")
         # determinism of the written bytes
         if self.deterministic:
             for kind, what in I.codec.order_events:
+                if kind == "sorted-keys":
+                    continue
                 if kind == "dict-order" and self.deterministic != "strict":
                     continue  # dicts iterate in insertion order: a function of how the value was built
                 ctx.oblige(f"codec/deterministic-bytes/{kind}", z3.BoolVal(False), kind="codec", where=f"writer iterates {what} in container order")
